@@ -313,6 +313,23 @@ func genDocFor(rt *rapid.T, sb *strings.Builder, t reflect.Type, o DocOpts, dept
 		genDoc(rt, sb, 2)
 		return
 	case scalarTypes["time"]:
+		if rapid.Bool().Draw(rt, "gentime") {
+			// composed timestamp: every fraction length 0..12, every zone form, separators and a possible byte slip
+			ts := rapid.SampledFrom([]string{"2018-01-01", "2021-03-25", "0000-01-01", "9999-12-31", "2000-02-29"}).Draw(rt, "date") +
+				rapid.SampledFrom([]string{"T", "T", "T", "t", " "}).Draw(rt, "tsep") + rapid.SampledFrom([]string{"23:42:59", "00:00:00", "12:30:60", "24:00:00"}).Draw(rt, "clock")
+			if n := rapid.IntRange(0, 12).Draw(rt, "nfrac"); n > 0 {
+				ts += "." + "12345678901234"[:n]
+			}
+			ts += rapid.SampledFrom([]string{"Z", "Z", "Z", "z", "", "+07:00", "-00:30", "+0700", "+24:00", "+07", " +07:00"}).Draw(rt, "zone")
+			if rapid.IntRange(0, 5).Draw(rt, "tslip") == 0 && len(ts) > 0 {
+				b := []byte(ts)
+				b[rapid.IntRange(0, len(b)-1).Draw(rt, "slippos")] = rapid.SampledFrom([]byte("0:9-.TZ+ x\x80")).Draw(rt, "slipbyte")
+				ts = string(b)
+			}
+			q, _ := stdjson.Marshal(ts)
+			sb.Write(q)
+			return
+		}
 		sb.WriteString(strconv.Quote(rapid.SampledFrom([]string{"2021-03-25T21:36:12Z", "2021-03-25T21:36:12.123456789Z", "2021-03-25T21:36:12+07:00", "2021-03-25T21:36:12.5-00:30", "0001-01-01T00:00:00Z", "9999-12-31T23:59:59.999999999Z",
 			"2021-03-25", "2021-02-30T00:00:00Z", "2021-03-25T21:36:12", "2021-03-25 21:36:12Z", "", "2021-03-25T21:36:12.Z", "2021-03-25T24:00:00Z", "2000-02-29T12:00:00Z", "1900-02-29T12:00:00Z", "2021-03-25t21:36:12z"}).Draw(rt, "time")))
 		return
